@@ -282,6 +282,30 @@ func (p *c20) check(rec *core.Recorder, e *twig.Engine, lk c20Lookup, phase stri
 	return true
 }
 
+// otherForms touches the members of the family through forms that are not plain attribute reads.
+func (p *c20) otherForms(rec *core.Recorder, e *twig.Engine, all []c20Lookup, r *core.Rand) {
+	forms := []string{"{{ x.%s() }}", "{{ x.%s is defined ? 1 : 0 }}", "{% if x.%s %}y{% endif %}", "{{ x.%s|default('d') }}", "{{ x['%s'] }}", "{{ x.%s(1) }}", "{% for i in x.%s %}{% endfor %}", "{{ x.%s.Nope }}", "{% set q = x.%s %}"}
+	for _, i := range r.Perm(len(all)) {
+		lk := all[i]
+		if lk.item.kind == "intmap" || strings.ContainsAny(lk.name, " '") {
+			continue
+		}
+		names := []string{lk.name}
+		if r.P(1, 3) {
+			names = append(names, strings.ToLower(lk.name), strings.ToUpper(lk.name))
+		}
+		for _, n := range names {
+			src := fmt.Sprintf(forms[r.Intn(len(forms))], n)
+			core.Guard(func() {
+				if t, err := e.ParseTemplate(src); err == nil {
+					t.Render(map[string]interface{}{"x": lk.item.val})
+				}
+			})
+			rec.Count("other-form-lookups", 1)
+		}
+	}
+}
+
 var c20FieldPool = []string{"Alpha", "Beta", "Gamma", "Delta", "Eps", "Zeta", "Eta", "Theta", "Iota", "Kappa", "Name", "Count", "Extra"}
 
 // flood builds n fresh struct types (distinct layouts sharing field names) and looks every field up.
@@ -460,6 +484,11 @@ func (p *c20) Run(rec *core.Recorder, seed uint64, idx int, tier string) {
 	}
 	if idx%2 == 0 && !p.held(rec, e, "cold, before anything else") {
 		return
+	}
+	if idx%3 == 1 {
+		// the first contact with a (type, name) pair is some other way of writing the name down: call syntax, tests, defaults,
+		// conditions, other letter cases. None of these is judged (some are errors by definition); they are history
+		p.otherForms(rec, e, all, r)
 	}
 	if !pass("cold", r.Perm(len(all))) {
 		return
